@@ -167,9 +167,15 @@ func c13enum(c *Ctx) {
 				lg.SetWriter(pw).SetErrorWriter(pw).SetLevel(slog.AlwaysLevel)
 				lg = lg.New("c13")
 				c.R.Add("schedules_on_a_child_logger", 1)
-			c.R.AddEvals(1) // the schedule is executed a second time
+				c.R.AddEvals(1) // the schedule is executed a second time
 			}
 			lg.SetColorMode(false)
+			pre, fa, fz := []byte("time="), []byte(" a=1 "), []byte(" z=2")
+			if kind == "child" {
+				// the child logs JSON: what a failure leaves behind must not change the logger's format either
+				lg.SetJSONMode(true)
+				pre, fa, fz = []byte(`{"time":`), []byte(`"a":1,`), []byte(`,"z":2`)
+			}
 			lg.SetWriter(io.Writer(pool[cfg.normal[0]]))
 			for _, w := range cfg.normal[1:] {
 				lg.AddWriter(pool[w])
@@ -227,7 +233,7 @@ func c13enum(c *Ctx) {
 						if e.Failed {
 							ownFailed = true
 						}
-						if len(e.Data) == 0 || e.Data[len(e.Data)-1] != '\n' || !bytes.HasPrefix(e.Data, []byte("time=")) {
+						if len(e.Data) == 0 || e.Data[len(e.Data)-1] != '\n' || !bytes.HasPrefix(e.Data, pre) {
 							c.R.Violation(idx, "complete-record", sig("complete-record"), fmt.Sprintf("destination %s was handed an incomplete record: %s", e.W, q(clip(string(e.Data), 200))), desc)
 							return false
 						}
@@ -333,8 +339,8 @@ func c13enum(c *Ctx) {
 					}
 					got[e.W]++
 					d := e.Data
-					if !bytes.HasPrefix(d, []byte("time=")) || bytes.Count(d, []byte{'\n'}) != 1 || d[len(d)-1] != '\n' || bytes.Count(d, []byte("rec "+id)) != 1 ||
-						!bytes.Contains(d, []byte("inner-done")) || !bytes.Contains(d, []byte(" a=1 ")) || !bytes.Contains(d, []byte(" z=2")) || bytes.Contains(d, []byte("inner "+id)) {
+					if !bytes.HasPrefix(d, pre) || bytes.Count(d, []byte{'\n'}) != 1 || d[len(d)-1] != '\n' || bytes.Count(d, []byte("rec "+id)) != 1 ||
+						!bytes.Contains(d, []byte("inner-done")) || !bytes.Contains(d, fa) || !bytes.Contains(d, fz) || bytes.Contains(d, []byte("inner "+id)) {
 						c.R.Violation(idx, "recovery", sig("recovery"), fmt.Sprintf("after the faults stopped, destination %s was handed something that is not the complete record of the call (a value of that record logs through another logger while being formatted): %s", e.W, q(clip(string(d), 300))), desc)
 						return
 					}
@@ -353,23 +359,23 @@ func c13enum(c *Ctx) {
 				c.R.Add("nested_records_after_recovery", 1)
 			}
 			// ... and the writer set can still be edited after the faults (nothing the failure path took is still held; a
-		// call that never returns shows as a crash of this child: the Go runtime reports the deadlock)
-		{
-			c.R.JournalNote(fmt.Sprintf("reconfiguration after the faults: AddWriter / record / RemoveWriter on %s logger", kind))
-			spare := mon.New(log, "SPARE", mon.ShapePlain)
-			lg.AddWriter(spare)
-			log.Reset()
-			if L != slog.OffLevel {
-				lg.LogAttrs(bg, slog.AlwaysLevel, "rec <after-reconfiguration>")
-				if n := len(log.Writes("SPARE")); n != 1 && len(cfg.perLevel[slog.AlwaysLevel]) == 0 {
-					c.R.Violation(idx, "recovery", "C13/recovery/reconfigured/always", fmt.Sprintf("a writer added after the faults stopped received the next normal-class record %d time(s)", n), desc)
-					return
+			// call that never returns shows as a crash of this child: the Go runtime reports the deadlock)
+			{
+				c.R.JournalNote(fmt.Sprintf("reconfiguration after the faults: AddWriter / record / RemoveWriter on %s logger", kind))
+				spare := mon.New(log, "SPARE", mon.ShapePlain)
+				lg.AddWriter(spare)
+				log.Reset()
+				if L != slog.OffLevel {
+					lg.LogAttrs(bg, slog.AlwaysLevel, "rec <after-reconfiguration>")
+					if n := len(log.Writes("SPARE")); n != 1 && len(cfg.perLevel[slog.AlwaysLevel]) == 0 {
+						c.R.Violation(idx, "recovery", "C13/recovery/reconfigured/always", fmt.Sprintf("a writer added after the faults stopped received the next normal-class record %d time(s)", n), desc)
+						return
+					}
 				}
+				lg.RemoveWriter(spare)
+				c.R.Add("reconfigurations_after_faults", 1)
 			}
-			lg.RemoveWriter(spare)
-			c.R.Add("reconfigurations_after_faults", 1)
-		}
-		if n := plog.Len(); n > 0 {
+			if n := plog.Len(); n > 0 {
 				c.R.Violation(idx, "diagnostic", "C13/diagnostic/another-loggers-destination", fmt.Sprintf("the parent's destination received %d record(s) although only its child logged: %s", n, clip(fmtEvents(plog.Events()), 600)), desc)
 				return
 			}
